@@ -24,6 +24,8 @@ import IsoDT.Driver.TruncProps
 import IsoDT.Driver.Strftime2
 import IsoDT.Driver.Cli2
 import IsoDT.Driver.DurTextQ
+import IsoDT.Driver.RecText
+import IsoDT.Driver.TruncQ
 
 open IsoDT IsoDT.Model
 open IsoDT.Spec (Date TZ TP)
@@ -339,6 +341,8 @@ def extDispatch (toks : List String) : Option String :=
   <|> IsoDT.Driver.Strftime2.dispatch toks
   <|> IsoDT.Driver.Cli2.dispatch toks
   <|> IsoDT.Driver.DurTextQ.dispatch toks
+  <|> IsoDT.Driver.RecText.dispatch toks
+  <|> IsoDT.Driver.TruncQ.dispatch toks
   -- <|> IsoDT.Driver.Foo.dispatch toks
 
 def dispatch (toks : List String) : String :=
